@@ -1,15 +1,22 @@
 """C04 — every reachable map (and written file) obeys the published storage layout."""
-from harness import histprop, gens
+from harness import histprop, gens, gens2
 
 RULE = ("the extracted Coq predicate layoutb_with (the one theorem C04_wf_implies_published_layout is about) "
         "is evaluated on the implementation's raw _cov_index_map, _sparse_map validity flags and "
-        "_block_to_cov_index after every API call of seeded random histories (all kinds/dtypes/configurations, "
-        "valid and malformed/raising updates, shuffled growth, pre-allocated coverage pixels); raw arrays are "
-        "also compared cell by cell with the L1 model state; non-trivial = an update followed by a check, "
-        "distinct by SHA-256 of the JSON history")
+        "_block_to_cov_index after every API call of seeded random histories: update histories of all kinds incl. "
+        "malformed/raising calls, and the histories of the other properties' generators (multi-map operations, "
+        "degrade, upgrade, ranges, boolean and scalar operators, astype, apply_mask, two-phase producer histories "
+        "with growth of results and arguments, write/read) so that every map RETURNED by an operation is inspected; "
+        "the COV/SPARSE extensions of written files are read with astropy and checked with the same predicate; raw "
+        "arrays are also compared cell by cell with the L1 model state; non-trivial = an operation followed by a "
+        "check, distinct by SHA-256 of the JSON history")
+
+OTHERS = ['gen_c06', 'gen_c07', 'gen_c08', 'gen_c09', 'gen_c09', 'gen_c11', 'gen_c12', 'gen_c15', 'gen_c02']
 
 
 def gen(rng):
+    if rng.random() < 0.5:
+        return getattr(gens2, rng.choice(OTHERS))(rng)
     h = gens.gen_c01_history(rng, max_steps=8)
     for st in h:
         if st['op'] == 'check':
